@@ -487,6 +487,10 @@ func main() {
 		var re int64
 		if !tm.IsZero() {
 			re = tm.UnixNano() / 100
+			if !tm.Equal(time.Unix(0, tm.UnixNano())) {
+				// outside the range of UnixNano, which wraps silently: no tick count at all
+				fail("oracle", fmt.Sprintf("date ticks=%d", t), "an instant within the range of int64 nanoseconds", tm.String(), "", "ReadDateBytes returned an instant that UnixNano cannot represent")
+			}
 		}
 		inRange := t <= math.MaxInt64/100 && t >= math.MinInt64/100
 		if inRange && re != t {
